@@ -273,6 +273,15 @@ func gobLayers(tier string) []Layer {
 				if m, ok := gobModel(b); !ok || !sameObsFull(m, xo) {
 					c.Fail(key("encode"), fmt.Sprintf("encoding % x does not denote x (format model: %s ok=%v)", b, m, ok))
 				}
+				// the returned bytes stay valid while other values are encoded
+				keep := string(b)
+				for _, k := range []int{i + 1, i + len(srcs)/2, len(srcs) - 1 - i%5} {
+					srcs[k%len(srcs)].GobEncode()
+				}
+				if string(b) != keep {
+					c.Fail(key("encode"), fmt.Sprintf("the returned encoding changed after later GobEncode calls: % x became % x", keep, b))
+					continue
+				}
 				z := new(Dec)
 				pv, _ = protect(func() { err = z.GobDecode(b) })
 				if pv != nil || err != nil {
